@@ -140,3 +140,88 @@ def run_length_wrap(chk):
                        "a parameter file whose shape needs >= 4 GiB with a payload of a few bytes was not rejected cleanly: `%s...` -> %s" % (l[:60], o[:300]),
                        {"family": "state", "harness": "h_state", "harness_args": ["naive"], "stateful": True, "lines": [lines[0], l],
                         "model_family": None, "observed": o[:600], "env": env})
+
+
+def run_param_batch(chk):
+    """A Parameter never carries a minibatch (the gradient reaching it is the sum over the
+    samples): every way of giving it one — init with a batched shape (values or Initializer),
+    a parameter file whose value tensor is batched — is rejected and leaves the Parameter as it
+    was: its announced shape, its value, gradient and statistics."""
+    from props import C13 as base
+    exe = build.build_harness("h_state")
+    rng = chk.rng
+    for dev in ("naive", "eigen"):
+        lines, expect_rejected = [], set()
+        for p in range(4):
+            d = [rng.choice([1, 2, 3]) for _ in range(rng.choice([1, 1, 2]))]
+            n = 1
+            for x in d:
+                n *= x
+            lines.append("param %d %s %s" % (p, ",".join(map(str, d)), ints(rng, n)))
+            lines.append("stats %d m %s" % (p, ",".join(map(str, d))))
+            for _ in range(4):
+                nd = [rng.choice([1, 2, 3]) for _ in range(rng.choice([1, 1, 2]))] if rng.random() < 0.6 else d
+                nn = 1
+                for x in nd:
+                    nn *= x
+                B = rng.choice([2, 3, 4])
+                k = rng.random()
+                if k < 0.4:
+                    lines.append("init %d %s/%d %s" % (p, ",".join(map(str, nd)), B, ints(rng, nn * B)))
+                elif k < 0.7:
+                    lines.append("initc %d %s/%d %d" % (p, ",".join(map(str, nd)), B, rng.randint(-2, 2)))
+                else:
+                    bits = [0x3f800000 + 0x100000 * i for i in range(nn * B)]
+                    data = base.file_header(0x200) + base.enc_tensor(nd, B, bits) + base.mp_u32(0)
+                    lines.append("loadhex %d %s" % (p, data.hex()))
+                expect_rejected.add(len(lines) - 1)
+            # and the same calls with batch 1 are accepted (the harness is not rejecting everything)
+            nd = [rng.choice([1, 2, 3]) for _ in range(rng.choice([1, 1, 2]))]
+            nn = 1
+            for x in nd:
+                nn *= x
+            bits = [0x3f800000 + 0x100000 * i for i in range(nn)]
+            lines.append("loadhex %d %s" % (p, (base.file_header(0x200) + base.enc_tensor(nd, 1, bits) + base.mp_u32(0)).hex()))
+            lines.append("init %d %s/1 %s" % (p, ",".join(map(str, nd)), ints(rng, nn)))
+        outs, reports = vrun.run_impl(exe, lines, stateful=True, args=[dev], timeout=120)
+        chk.traces += 1
+        for i, (l, o) in enumerate(zip(lines, outs)):
+            chk.count(l[:100], o, o.startswith("err"))
+            bad = None
+            if o.startswith("crash"):
+                bad = ("crash", "crashes (%s)" % o)
+            elif i in expect_rejected and o == "ok":
+                bad = ("batched-parameter-accepted", "is accepted: the Parameter now carries a minibatch")
+            elif i in expect_rejected and o != "err unchanged":
+                bad = ("state-changed-by-rejected-call", "is rejected but changed the Parameter: %s" % o[:500])
+            elif i not in expect_rejected and o != "ok":
+                bad = ("batch-1-call-rejected", "(minibatch size 1) answers `%s`" % o[:200])
+            if bad:
+                chk.report("state:param-batch:%s:%s" % (bad[0], l.split()[0]), "device %s: `%s` %s" % (dev, l[:160], bad[1]),
+                           {"family": "state", "harness": "h_state", "harness_args": [dev], "stateful": True, "lines": lines[: i + 1],
+                            "model_family": None, "observed": o[:1500]})
+                break
+
+
+def run_alloc_refused(chk):
+    """The same request that the allocator refuses (4 GiB and 8 GiB tensors under an allocation
+    limit of 3000 MB) on devices::Naive and devices::Eigen: both must raise primitiv::Error, leave
+    the Parameter unchanged and stay usable — same arguments accepted, same failure reported."""
+    exe = build.build_harness("h_state")
+    lines = ["param 0 2 1,2", "initc 0 65536,16384/1 1", "init 0 2/1 3,4", "initc 0 65536,32768/1 0", "initc 0 3/1 2", "opt 0 momentum", "add 0 0", "update 0"]
+    want = ["ok", "err unchanged", "ok", "err unchanged", "ok", "ok", "ok", "ok"]
+    answers = {}
+    for dev in ("naive", "eigen"):
+        outs, reports = vrun.run_impl(exe, lines, stateful=True, args=[dev], timeout=120)
+        chk.traces += 1
+        answers[dev] = outs
+        for i, (l, o) in enumerate(zip(lines, outs)):
+            chk.count(dev + " " + l, o, o.startswith("err"))
+            if o != want[i]:
+                kind = "crash" if o.startswith("crash") else "answer"
+                chk.report("state:alloc-refused:%s:%s" % (dev, kind),
+                           "device %s: `%s` answers `%s` where `%s` is expected (a tensor the allocator refuses must be reported as primitiv::Error on "
+                           "every backend, with the Parameter unchanged)" % (dev, l, o[:300], want[i]),
+                           {"family": "state", "harness": "h_state", "harness_args": [dev], "stateful": True, "lines": lines[: i + 1],
+                            "model_family": None, "observed": o[:1500], "other_backend": answers.get("naive", [None] * len(lines))[i]})
+                break
